@@ -94,7 +94,7 @@ def main(ctx):
     ctx.coverage["distinct_nontrivial"] = int(ctx.counters["nontrivial"])
     for n in ("sweep_execs", "seq_execs", "split_execs", "ref_fail_1002", "ref_fail_1007",
               "ref_ok", "ref_closed", "pings_answered", "msgs_delivered", "drop_observed",
-              "closeframe_observed"):
+              "closeframe_observed", "queued_read_execs"):
         ctx.require(n)
 
 
@@ -140,13 +140,18 @@ def _endpoint(c):
     return ws.open_endpoint(c["role"], opts, compress=c["compress"])
 
 
-def run_stream(c, segments):
-    """feed the segments to a fresh real endpoint -> observation dict"""
+def run_stream(c, segments, queued=False):
+    """feed the segments to a fresh real endpoint -> observation dict.
+    queued (asyncio): all reads are handed to data_received() before the loop runs the adapter's
+    consumer callback once (several reads queued in one loop iteration)"""
     from ref import ws_frames as F
     ep = _endpoint(c)
     ep.take()
     for s in segments:
-        if not ep.feed(s):
+        if queued:
+            if not ep.conn.feed(s, False):
+                break
+        elif not ep.feed(s):
             break
     ep.conn.settle()
     out = ep.take()
@@ -578,6 +583,22 @@ def _job_split(a, c, env):
             stats["split_execs"] += 1
             _account(stats, v, obs, classes, c, stream)
             probs = compare(c, stream, v, obs)
+            if env.get("fw") == "aio" and len(segs) > 1:
+                obsq = run_stream(c, segs, queued=True)
+                evals += 1
+                stats["queued_read_execs"] = stats.get("queued_read_execs", 0) + 1
+                if key(obsq) != key(base):
+                    kb, ko = key(base), key(obsq)
+                    names = ("events", "pongs", "closes", "calls", "state", "onclose", "escapes")
+                    dq = [n for n, x, y in zip(names, kb, ko) if x != y]
+                    redetect = set(dq) <= {"calls", "state", "onclose"} and obsq["calls"] == ["lose"] and \
+                        v.fail is not None and not c["failByDrop"] and \
+                        any(v.fail["earliest"] <= x < v.fail["latest"] for x in cuts)
+                    probs.append(("split-dependent:redetected-violation-drops-tcp" if redetect else
+                                  "split-dependent:queued-reads", "cuts=%s (all reads queued before the "
+                                  "consumer ran): %s vs unsplit %s" % (
+                                      cuts[:6], _short(obsq["events"]) + [obsq["state"], obsq["calls"]],
+                                      _short(base["events"]) + [base["state"], base["calls"]])))
             if key(obs) != key(base):
                 kb, ko = key(base), key(obs)
                 names = ("events", "pongs", "closes", "calls", "state", "onclose", "escapes")
